@@ -400,12 +400,10 @@ impl CelValue {
     }
 
     pub fn neq(self, rhs: CelValue) -> CelValue {
-        self.error_prop_or(rhs, |lhs, rhs| {
-            if let CelValue::Bool(res) = CelValueDyn::eq(&lhs, &rhs) {
-                return CelValue::from_bool(!res);
-            }
-
-            unreachable!();
+        self.error_prop_or(rhs, |lhs, rhs| match CelValueDyn::eq(&lhs, &rhs) {
+            CelValue::Bool(res) => CelValue::from_bool(!res),
+            // comparing nested values can fail, pass that on
+            other => other,
         })
     }
 
